@@ -512,3 +512,50 @@ func VC_C04_in_nil_alternative() {
 	verifAssert(got == 5 || got == -1, "C04.in-nil.result-is-configured")
 	verifReached("C04.in-nil")
 }
+
+type vNode04 struct {
+	A int
+	S string
+}
+
+func vFN04(p *vNode04, q *int) int { return 0 }
+
+// VC_C04_pointer_arguments: conditions on pointer parameters compare what is pointed to
+// (as arg.Equals does for every other kind): a call with another pointer to an equal value
+// selects the condition, a pointer to a different value does not, nil matches only nil.
+func VC_C04_pointer_arguments() {
+	vEnv()
+	defer func() {
+		if e := recover(); e != nil {
+			verifAssert(false, "C04.pointer.no-panic")
+		}
+	}()
+	a, bb := verifInt("a"), verifInt("b")
+	reg, regQ := &vNode04{A: a, S: "s"}, new(int)
+	*regQ = 7
+	w, err := CreateWhen(nil, vFN04, nil, []interface{}{-1}, false)
+	verifAssert(err == nil, "C04.pointer.create-ok")
+	if verifBool("viaIn") {
+		w.In([]interface{}{reg, regQ}).Return(5)
+	} else {
+		w.When(reg, regQ).Return(5)
+	}
+	f := vStubFunc(w).(func(*vNode04, *int) int)
+	q := new(int)
+	*q = 7
+	var got int
+	var want bool
+	switch verifChoice("call", 4) {
+	case 0: // the registered pointers themselves
+		got, want = f(reg, regQ), true
+	case 1: // other pointers to equal values
+		got, want = f(&vNode04{A: a, S: "s"}, q), true
+	case 2: // a pointer to a different value
+		got, want = f(&vNode04{A: bb, S: "s"}, q), a == bb
+	default: // nil
+		got, want = f(nil, q), false
+	}
+	verifAssert((got == 5) == want, "C04.pointer.condition-compares-pointees")
+	verifAssert(got == 5 || got == -1, "C04.pointer.result-is-configured")
+	verifReached("C04.pointer")
+}
